@@ -218,7 +218,10 @@ impl Prop for C13 {
             if after != want {
                 let missing: Vec<&Q> = want.difference(&after).take(2).collect(); let extra: Vec<&Q> = after.difference(&want).take(2).collect();
                 let lost_prior = before.difference(&after).next().is_some();
-                let class = format!("{:?}:{}", fmt, if lost_prior { "prior-content-changed" } else if !missing.is_empty() && extra.is_empty() { "triples-missing" } else if missing.is_empty() { "foreign-triples" } else { "triples-differ" });
+                // (a triple stored with its quotes kept next to an identical, correctly stored prior triple is the same discrepancy as `triples-differ`,
+                // only the expected form happened to be there already)
+                let quoted_form = extra.iter().any(|q| q.2.starts_with('"'));
+                let class = format!("{:?}:{}", fmt, if lost_prior { "prior-content-changed" } else if !missing.is_empty() && extra.is_empty() { "triples-missing" } else if missing.is_empty() && !quoted_form { "foreign-triples" } else { "triples-differ" });
                 return fin(Some(Violation::new(&class, format!("loading a {}-line {:?} document ({} distinct triples) into a store with {} quads (dictionary pre-filled with {} extra terms, pool {}, cpus {}) leaves {} quads, expected {}; missing e.g. {:?}; unexpected e.g. {:?}", lines, fmt, want_doc.len(), before.len(), c.prior_terms, c.pool, c.cpus, after.len(), want.len(), missing, extra))));
             }
             let graphs_want: BTreeSet<String> = graphs_before.iter().cloned().chain(want_doc.iter().filter_map(|q| q.3.clone())).collect();
@@ -254,7 +257,7 @@ impl Prop for C13 {
         if c.doc.triples.iter().any(|(_, _, o)| matches!(o, LT::EscLit(_))) { let t = c.doc.triples.iter().map(|(s, p, o)| (s.clone(), *p, match o { LT::EscLit(n) => LT::Lit(*n), x => x.clone() })).collect(); out.push(LoadCase { doc: Doc { triples: t, seed: c.doc.seed }, ..c.clone() }); }
         out
     }
-    fn rule(&self) -> String { "A case is one abstract triple list (IRIs, plain and escaped literals, blank nodes) rendered to N-Triples, N-Quads, line-oriented Turtle, N3 and RDF/XML with line counts at and around the internal chunk boundaries (999..2500 lines; 8191..8193 triples for RDF/XML), comments and blank lines at PRNG-chosen positions, loaded into an empty or pre-populated database (quads, named graphs, prefix, pre-filled dictionary), optionally twice, under a simulated rayon pool, simulated CPU count and (RDF/XML) shuttle-scheduled crossbeam workers. Oracle: lexical quads after = before + document triples, catalog unchanged, formats agree. Non-trivial = at least 2 distinct triples; distinct = hash of (size, render seed, formats).".into() }
+    fn rule(&self) -> String { "A case is one abstract triple list (IRIs, plain and escaped literals, blank nodes) rendered to N-Triples, N-Quads, line-oriented Turtle, N3 and RDF/XML with line counts at and around the internal chunk boundaries (999..2500 lines; 8191..8193 triples for RDF/XML), comments and blank lines at PRNG-chosen positions, loaded into an empty or pre-populated database (quads, named graphs, prefix, pre-filled dictionary), optionally twice, under a simulated rayon pool, simulated CPU count and (RDF/XML) shuttle-scheduled crossbeam workers. Oracle: lexical quads after = before + document triples, catalog unchanged, formats agree. Non-trivial = at least 2 distinct triples; distinct = hash of (size, render seed, formats). Documents use RDF / RDFS schema properties as predicates, '#' inside IRIs, literals and trailing N3 comments, 2-4-byte characters; the prior database may bind the document's own prefixes to other namespaces, may have had an older snapshot of its dictionary merged back, and may have held the same triples before a clear / drop.".into() }
     fn assumptions(&self) -> Vec<String> { vec!["'as written' is taken in Kolibrie's storage convention as N-Triples/N-Quads/RDF-XML apply it (IRI without brackets, plain literal by decoded lexical value, blank-node label verbatim)".into(), "RDF/XML documents use rdf:Description + property elements with IRI subjects and IRI / plain-literal objects".into()] }
     fn real_vs_stub(&self) -> serde_json::Value { serde_json::json!({"real": ["SparqlDatabase::{parse_ntriples_and_add, parse_nquads_and_add, parse_turtle, parse_n3, parse_rdf}", "Dictionary::merge", "quick-xml"], "simulated": ["rayon (sim-rayon)", "crossbeam channel + scope (sim-crossbeam on shuttle threads)", "CPU count (sysconf interposer)", "hash keys"], "not_run": ["parse_rdf_from_file (filesystem)"]}) }
     fn matches_known(&self, c: &LoadCase, v: &Violation, matcher: &str) -> bool {
